@@ -112,7 +112,19 @@ func applyChain(chain []conv, it item) (item, bool) {
 }
 
 func convFunc(c conv) func(int) (int, error) {
+	// a convert function may keep state between items (a running index, "same as the previous one" filters): it is
+	// applied to every item of its source once, whatever is built on top of the converted stream.  This one
+	// remembers what it was shown and answers a second showing of the same item with an error item.
+	var mu sync.Mutex
+	shown := map[int]bool{}
 	return func(v int) (int, error) {
+		mu.Lock()
+		twice := shown[v]
+		shown[v] = true
+		mu.Unlock()
+		if twice {
+			return 0, fmt.Errorf("convert function %d applied to item %d a second time", c.id, v)
+		}
 		out, ok := applyConv(c, item{val: v})
 		if !ok {
 			if v%3 == 0 {
